@@ -444,8 +444,10 @@ def main():
         wall_s=round(wall, 2),
         violations=len(violations),
     )
-    os.makedirs(EVID, exist_ok=True)
-    with open(os.path.join(EVID, f"{prop}.json"), "w") as f:
+    # experiments on a modified tree (tools/try_mutant.sh) must not overwrite the committed evidence
+    evid_dir = os.path.join(BUILD, "evidence-scratch") if os.environ.get("VERIF_SCRATCH_EVIDENCE") else EVID
+    os.makedirs(evid_dir, exist_ok=True)
+    with open(os.path.join(evid_dir, f"{prop}.json"), "w") as f:
         json.dump(ev, f, indent=1, sort_keys=True)
     print(f"{prop} tier={tier} seed={seed}: theorems={len(theorems)} discharged={discharged} cases={totals['evaluations']} "
           f"mismatches={totals['mismatches']} oracle_failures={len(failing)} known={len(printed)} breaks={len(breaks)} wall={wall:.1f}s")
